@@ -8,6 +8,55 @@ pub const BOUNDARY_CHARS: [char; 9] = [
     '\u{d7ff}',
 ];
 
+/// For every UTF-8 lead byte (0xC2..=0xF4) the smallest and the largest scalar whose encoding starts with it,
+/// and for ASCII the two ends: 104 chars that together contain every lead byte and, in each continuation
+/// position, both 0x80 and 0xBF (table-driven decoders indexed by the lead byte slip on one entry)
+pub fn lead_byte_chars() -> Vec<char> {
+    let mut out = vec!['\u{0}', '\u{7f}'];
+    let mut push = |lo: u32, hi: u32| {
+        for n in [lo, hi] {
+            // move out of the surrogate gap
+            let n = if (0xD800..0xE000).contains(&n) { if n == lo { 0xE000 } else { 0xD7FF } } else { n };
+            if let Some(c) = char::from_u32(n.min(0x10FFFF)) {
+                if !out.contains(&c) {
+                    out.push(c);
+                }
+            }
+        }
+    };
+    for lead in 0xC2u32..=0xDF {
+        push((lead & 0x1F) << 6, ((lead & 0x1F) << 6) | 0x3F);
+    }
+    for lead in 0xE0u32..=0xEF {
+        let lo = ((lead & 0x0F) << 12).max(0x800);
+        push(lo, ((lead & 0x0F) << 12) | 0xFFF);
+    }
+    for lead in 0xF0u32..=0xF4 {
+        let lo = ((lead & 0x07) << 18).max(0x10000);
+        push(lo, (((lead & 0x07) << 18) | 0x3FFFF).min(0x10FFFF));
+    }
+    out
+}
+
+/// short strings around each char of `lead_byte_chars`: alone, next to ASCII, next to a 2-byte char, doubled,
+/// and next to its successor in the table
+pub fn lead_byte_strings() -> Vec<String> {
+    let cs = lead_byte_chars();
+    let mut out = Vec::new();
+    for (i, &c) in cs.iter().enumerate() {
+        let nx = cs[(i + 1) % cs.len()];
+        out.push(format!("{c}"));
+        out.push(format!("a{c}"));
+        out.push(format!("{c}a"));
+        out.push(format!("{c}é"));
+        out.push(format!("é{c}z"));
+        out.push(format!("{c}{c}"));
+        out.push(format!("{c}{nx}"));
+        out.push(format!("x{c}y{nx}z"));
+    }
+    out
+}
+
 /// All sequences of length 0..=max over `alphabet`, shortest first; calls `f` with each.
 pub fn for_each_seq<T: Copy>(alphabet: &[T], max: usize, mut f: impl FnMut(&[T])) {
     let mut buf: Vec<T> = Vec::with_capacity(max);
